@@ -43,7 +43,13 @@ RULE = (
     "the call raises and the snapshots (shape + dtype + bytes of every array an operand owns) are unchanged.  "
     "One cell per (operation, violation) so that every row of the table has its own counts.  Non-trivial: the "
     "violating operand differs from a valid one in exactly one stated respect (the algorithm and import rows also run the "
-    "valid call as a control, which must be answered)."
+    "valid call as a control, which must be answered).  Round 2: the ill-formed part of a request is also generated so "
+    "that it has no visible effect on any value (out-of-range subscripts carrying an explicit zero, a cancelling pair, a "
+    "zero that is the group's maximum; receivers / other operands / vectors / matrices holding only zeros; sparse operands "
+    "whose stored values are all explicit zeros; unused list entries), dense receivers are also grown tensors (C-ordered "
+    "buffer, numpy integers in shape), vectors / matrices / subscripts come in integer dtypes (also 255 in uint8), "
+    "sumtensor receivers for ttv, sparse files with a subscript beyond the stated size or read with a lower index base; every "
+    "rejected request is repeated once and must be rejected again with the operands still unchanged."
 )
 ASSUMPTIONS = [
     "exception type is not constrained (AssertionError, ValueError, IndexError raised by numpy on behalf of the "
